@@ -16,11 +16,11 @@ const (
 )
 
 const (
-	pacerRecOwn = iota // injected recording pacer that forwards immediately
-	pacerRecNoOp       // injected recording pacer delegating to gcc.NoOpPacer
-	pacerRecLeaky      // injected recording pacer delegating to gcc.NewLeakyBucketPacer
-	pacerNoOp          // gcc.NoOpPacer injected as is (SetTargetBitrate not observable)
-	pacerDefault       // no pacer option: the default leaky bucket pacer
+	pacerRecOwn   = iota // injected recording pacer that forwards immediately
+	pacerRecNoOp         // injected recording pacer delegating to gcc.NoOpPacer
+	pacerRecLeaky        // injected recording pacer delegating to gcc.NewLeakyBucketPacer
+	pacerNoOp            // gcc.NoOpPacer injected as is (SetTargetBitrate not observable)
+	pacerDefault         // no pacer option: the default leaky bucket pacer
 	nPacerKinds
 )
 
